@@ -183,7 +183,7 @@ def run_real(binary, case):
     if case.get("buffer") is not None:
         env["YGM_COMM_BUFFER_SIZE_KB"] = case["buffer"]
     return C.run_sim(binary, case["tokens"], nodes=nodes, ppn=ppn, env=env, sim_seed=case["sim_seed"],
-                     policy=case["policy"], want_log=False, timeout=120, max_steps=250000, livelock=100000)
+                     policy=case["policy"], want_log=False, timeout=120, max_steps=120000, livelock=60000)
 
 
 def parse_outs(sr, nranks):
@@ -589,17 +589,26 @@ def run(tier, seed, model_ok=True):
     for i in range(nm):
         jobs.append(make_case(rnd, i, False, big=(i % 5 == 4)))
 
+    stop = {"fails": 0}
+
     def do(job):
         case, script = job
         r = C.Result()
+        if stop["fails"] >= 6:      # enough failing inputs: do not burn the step budget on hundreds more
+            return case, script, r, "skipped", False
         try:
             st, merged = evaluate(binary, case, script, model_ok, r)
+            if r.oracle_failures:
+                stop["fails"] += 1
         except Exception as ex:   # never swallow: a crash of the machinery is a correspondence failure
             r.corr_failures.append({"relation": "check-machinery", "what": repr(ex)[:300], "case": case})
             st, merged = "error", False
         return case, script, r, st, merged
 
     for case, script, r, st, merged in C.pmap(do, jobs):
+        if st == "skipped":
+            res.count("skipped-after-failures")
+            continue
         res.evaluations += 1
         nranks = case["layout"][0] * case["layout"][1]
         res.oracle_failures += r.oracle_failures
